@@ -102,6 +102,20 @@ def r1_evolve(chk):
                     from ..canon import path_conditions
 
                     pcs = [norm(t) for t in path_conditions(ev.node, s)]
+                    # an empty container may be replaced by a fresh empty one instead of being copied: `if <the field is empty>: changes[f] = {}`
+                    # on the other arm of the test that guards the copy - the copy is then "skipped" only where a fresh object is handed over
+                    from ..canon import negate
+
+                    for g_ in walk_no_nested(ev.node):
+                        if isinstance(g_, ast.If) and len(g_.body) == 1 and isinstance(g_.body[0], ast.Assign) and isinstance(g_.body[0].targets[0], ast.Subscript) \
+                                and isinstance(g_.body[0].targets[0].slice, ast.Constant) and g_.body[0].targets[0].slice.value == fld:
+                            v_ = g_.body[0].value
+                            fresh_empty = (isinstance(v_, (ast.Dict, ast.List, ast.Set)) and not (getattr(v_, "keys", None) or getattr(v_, "elts", None))) \
+                                or (isinstance(v_, ast.Call) and call_name(v_) in ("dict", "list", "set") and not v_.args and not v_.keywords)
+                            says_empty = any(isinstance(c_, ast.UnaryOp) and isinstance(c_.op, ast.Not) and norm(c_.operand) == f"self.{fld}"
+                                             for c_ in (g_.test.values if isinstance(g_.test, ast.BoolOp) and isinstance(g_.test.op, ast.And) else [g_.test]))
+                            if fresh_empty and says_empty:
+                                pcs = [t for t in pcs if t != norm(negate(g_.test))]
                     raw = [x for x in walk_no_nested(ev.node) if isinstance(x, ast.Assign) and x is not s and isinstance(x.targets[0], ast.Subscript)
                            and isinstance(x.targets[0].slice, ast.Constant) and x.targets[0].slice.value == fld and not _is_deep_copy_of(x.value, f"self.{fld}")
                            and f"self.{fld}" in {norm(n) for n in ast.walk(x.value)}]
@@ -449,6 +463,13 @@ def r4_r5_derived(chk):
                 res = norm(s.targets[0])
         chk.require(res is not None, f"Structure.{name}: result variable not found")
         apps = [c for c in walk_no_nested(f.node) if isinstance(c, ast.Call) and norm(c.func) in (f"{res}.append_bond", f"{res}.append_bonds", f"{res}.extend_bonds")]
+        if not apps:
+            # the bond table filled from one comprehension (`res._bonds = [b.evolve(...) for b in ...]`): each element stands for an appended bond
+            import types as _types
+
+            for s_ in walk_no_nested(f.node):
+                if isinstance(s_, ast.Assign) and norm(s_.targets[0]) == f"{res}._bonds" and isinstance(s_.value, ast.ListComp):
+                    apps.append(_types.SimpleNamespace(args=[s_.value.elt], func=s_.targets[0], lineno=s_.lineno, col_offset=s_.col_offset, _node=s_))
         chk.require(apps, f"Structure.{name}: no bonds are appended to the product")
         from ..canon import Env
 
@@ -457,7 +478,7 @@ def r4_r5_derived(chk):
         maps = {nm for nm, vals in asg.items() if len(vals) == 1 and isinstance(vals[0], (ast.Call, ast.DictComp))
                 and f"{res}.atoms" in norm(vals[0]) and ("zip" in norm(vals[0]) or isinstance(vals[0], ast.DictComp))}
         for c in apps:
-            a0 = env.expand(c.args[0], keep=maps | {res}, at=c)
+            a0 = env.expand(c.args[0], keep=maps | {res}, at=getattr(c, "_node", c))
             fresh = isinstance(a0, ast.Call) and (call_name(a0) == "Bond" or (isinstance(a0.func, ast.Attribute) and a0.func.attr == "evolve"))
             ends_ok = True
             if fresh and isinstance(a0.func, ast.Attribute) and a0.func.attr == "evolve":
@@ -465,7 +486,7 @@ def r4_r5_derived(chk):
                 ends_ok = k1 is not None and k2 is not None and all(isinstance(k, ast.Subscript) and norm(k.value) in maps for k in (k1, k2))
             if fresh and call_name(a0) == "Bond":
                 ends_ok = all(res in names_in(x) for x in a0.args[:2])
-            chk.decide(fresh and ends_ok, "C06.R4", f"{f.key}:bond:{short(a0, 40)}", f.where(c), "appended bond is an evolve(...) onto product atoms / a fresh Bond",
+            chk.decide(fresh and ends_ok, "C06.R4", f"{f.key}:bond:{short(a0, 40)}", f.where(getattr(c, "_node", c)), "appended bond is an evolve(...) onto product atoms / a fresh Bond",
                        f"Structure.{name} appends `{short(a0, 60)}`: the source's own bond object (or a bond on source atoms) ends up in the product")
         # coordinates: a new array, no in-place operator on an input's array
         cs = [s for s in walk_no_nested(f.node) if isinstance(s, ast.Assign) and f"{res}.coords" in stored_paths(s)]
